@@ -207,7 +207,7 @@ theorem seqStep_wp_all (n : Node) (hw : wp n = true) (op : SeqOp) (hop : SeqArgs
     | sort k r =>
       dsimp only
       split
-      · split <;> exact hw
+      · split <;> first | exact hw | (split <;> exact hw)
       · split
         · exact fin _ (kw_sub hK (fun x hx => mem_sortBy.mp hx))
         · exact hw
